@@ -430,4 +430,163 @@ theorem labelsOfText_textOfLabels_of_text (n : WName) (hne : n ≠ [])
   simp only [Function.comp, id, encodeText, decodeLabel]
   rw [Utf8.decode_encode _ hs, map_toNat_map_ofNat hs]
 
+/-! ## the names table: text keys (library) against label-list keys (encoder model) -/
+
+/-- the encoder model's table for a `str`-keyed table: every key split and encoded -/
+def tblOf (t : TNames) : Encode.Names := t.map (fun p => (keyLabels p.1, p.2))
+
+theorem map_encodeText_injective : ∀ {a b : List Text}, a.map encodeText = b.map encodeText → a = b := by
+  intro a
+  induction a with
+  | nil => intro b h; cases b with | nil => rfl | cons _ _ => simp at h
+  | cons x xs ih =>
+    intro b h
+    cases b with
+    | nil => simp at h
+    | cons y ys =>
+      simp only [List.map_cons, List.cons.injEq] at h
+      rw [encodeText_injective h.1, ih h.2]
+
+/-- **Key agreement.**  Two text keys are the same `str` iff the encoder model's label-list keys are equal:
+`k ↦ [p.encode() for p in k.split('.')]` is injective on all of `str` -/
+theorem keyLabels_injective {a b : Text} (h : keyLabels a = keyLabels b) : a = b := by
+  unfold keyLabels at h
+  have h2 := map_encodeText_injective h
+  rw [← joinDot_splitDot a, ← joinDot_splitDot b, h2]
+
+/-- the key of a suffix `'.'.join(labels[count:])` is the label-list suffix -/
+theorem keyLabels_joinDot (ls : List Text) (hne : ls ≠ []) (h : ∀ l ∈ ls, dot ∉ l) : keyLabels (joinDot ls) = ls.map encodeText := by
+  unfold keyLabels
+  rw [splitDot_joinDot ls hne h]
+
+/-- `self.names.get(key, 0)` on the text table is the model's lookup on the label-list table -/
+theorem lookup_agrees (names : TNames) (k : Text) : Encode.lookupName (tblOf names) (keyLabels k) = lookupText names k := by
+  unfold Encode.lookupName lookupText tblOf
+  induction names with
+  | nil => rfl
+  | cons p r ih =>
+    simp only [List.map_cons, List.find?_cons]
+    by_cases hk : p.1 = k
+    · simp [hk]
+    · have hne : keyLabels p.1 ≠ keyLabels k := fun e => hk (keyLabels_injective e)
+      simp only [hk, hne, decide_false]
+      exact ih
+
+theorem utfOf_ok_length {l : Label} {lb : Bytes} (h : Encode.utfOf l = .ok lb) : lb.length = l.length + 1 := by
+  unfold Encode.utfOf at h
+  split at h
+  · simp at h
+  · unfold Encode.byteOf at h
+    split at h
+    · simp only [bind, Except.bind, pure, Except.pure, Except.ok.injEq] at h
+      rw [← h]; simp
+    · simp [bind, Except.bind] at h
+
+/-- image of a text-level result under the key translation -/
+def onTbl (r : Except PyExc (Bytes × TNames)) : Except PyExc (Bytes × Encode.Names) := r.map (fun x => (x.1, tblOf x.2))
+
+/-- the loop over the remaining labels: the offsets the library computes from text lengths are the
+offsets at which the encoder model registers the suffixes, and the keys correspond -/
+theorem writeRest_refines (start nlen : Nat) : ∀ (rest : List Text) (names : TNames) (size : Nat),
+    (∀ l ∈ rest, dot ∉ l) → start ≤ size → (rest ≠ [] → size + utf8Len (joinDot rest) = start + nlen) →
+    onTbl (writeRest start nlen names rest) = Encode.writeName size (tblOf names) (rest.map encodeText) := by
+  intro rest
+  induction rest with
+  | nil =>
+    intro names size _ _ _
+    simp [writeRest, Encode.writeName, onTbl, Encode.byteOf, bind, Except.bind, pure, Except.pure, Except.map]
+  | cons l rest ih =>
+    intro names size hd hs hsz
+    have hkey : keyLabels (joinDot (l :: rest)) = (l :: rest).map encodeText := keyLabels_joinDot _ (by simp) hd
+    have hlook := lookup_agrees names (joinDot (l :: rest))
+    rw [hkey] at hlook
+    have hsz' := hsz (by simp)
+    unfold writeRest
+    simp only [List.map_cons] at hlook ⊢
+    unfold Encode.writeName
+    rw [hlook]
+    cases hl : lookupText names (joinDot (l :: rest)) with
+    | some idx =>
+      simp only
+      cases hlk : Encode.linkOf idx with
+      | error e => simp [onTbl, Except.map, bind, Except.bind]
+      | ok b => simp [onTbl, Except.map, bind, Except.bind, pure, Except.pure]
+    | none =>
+      simp only
+      cases hu : Encode.utfOf (encodeText l) with
+      | error e => simp [onTbl, Except.map, bind, Except.bind]
+      | ok lb =>
+        have hlen := utfOf_ok_length hu
+        have hoff : (Gen.NameText.suffix_offset start nlen (utf8Len (joinDot (l :: rest)))).toNat = size := by
+          rw [GenFacts.NameText.suffix_offset_eq _ _ _ (by omega)]; omega
+        rw [hoff]
+        have hrec := ih ((joinDot (l :: rest), size) :: names) (size + lb.length)
+          (fun x hx => hd x (List.mem_cons_of_mem _ hx)) (by omega)
+          (by
+            intro hne
+            unfold joinDot at hsz' ⊢
+            rw [joinWith_cons dot l hne, utf8Len_append, utf8Len_cons_dot] at hsz'
+            unfold utf8Len at hsz' ⊢
+            omega)
+        have htbl : tblOf ((joinDot (l :: rest), size) :: names) = (encodeText l :: rest.map encodeText, size) :: tblOf names := by
+          simp only [tblOf, List.map_cons, hkey]
+        rw [htbl] at hrec
+        simp only [bind, Except.bind]
+        rw [← hrec]
+        cases writeRest start nlen ((joinDot (l :: rest), size) :: names) rest with
+        | error e => simp [onTbl, Except.map]
+        | ok v => simp [onTbl, Except.map, pure, Except.pure]
+
+/-- **Compression-table agreement.**  `DNSOutgoing.write_name` as the library runs it — a `dict` keyed by the
+*text* of the stripped name and of each proper suffix (`'.'.join(labels[count:])`), offsets computed as
+`start_size + len(name.encode()) - len(partial_name.encode())` — appends exactly the bytes, raises exactly the
+exception, and leaves exactly the table (keys translated by `k ↦ [p.encode() for p in k.split('.')]`, which is
+injective) that the encoder model `Encode.writeName` produces on the label list `labelsOfText name`.  For every
+`str`, every table and every offset: this is the assumption under which `Wire.Encode` keys its table by label lists. -/
+theorem writeNameText_refines (size : Nat) (names : TNames) (name : Text) :
+    onTbl (writeNameText size names name) = Encode.writeName size (tblOf names) (labelsOfText name) := by
+  unfold writeNameText labelsOfText
+  have hlook := lookup_agrees names (stripTrailingDot name)
+  have hjoin := joinDot_splitDot (stripTrailingDot name)
+  have hdot : ∀ l ∈ splitDot (stripTrailingDot name), dot ∉ l := fun l hl => splitDot_mem_no_dot hl
+  have hkey : keyLabels (stripTrailingDot name) = (splitDot (stripTrailingDot name)).map encodeText := rfl
+  rw [hkey] at hlook
+  simp only
+  cases hsp : splitDot (stripTrailingDot name) with
+  | nil => exact absurd hsp (splitDot_ne_nil _)
+  | cons l0 rest =>
+    rw [hsp] at hlook hjoin hdot
+    simp only [List.map_cons] at hlook ⊢
+    unfold Encode.writeName
+    rw [hlook]
+    cases hl : lookupText names (stripTrailingDot name) with
+    | some idx =>
+      simp only
+      cases hlk : Encode.linkOf idx with
+      | error e => simp [onTbl, Except.map, bind, Except.bind]
+      | ok b => simp [onTbl, Except.map, bind, Except.bind, pure, Except.pure]
+    | none =>
+      simp only
+      cases hu : Encode.utfOf (encodeText l0) with
+      | error e => simp [onTbl, Except.map, bind, Except.bind]
+      | ok lb =>
+        have hlen := utfOf_ok_length hu
+        have hrec := writeRest_refines size (utf8Len (stripTrailingDot name)) rest ((stripTrailingDot name, size) :: names)
+          (size + lb.length) (fun x hx => hdot x (List.mem_cons_of_mem _ hx)) (by omega)
+          (by
+            intro hne
+            rw [← hjoin]
+            unfold joinDot
+            rw [joinWith_cons dot l0 hne, utf8Len_append, utf8Len_cons_dot]
+            unfold utf8Len
+            omega)
+        have htbl : tblOf ((stripTrailingDot name, size) :: names) = (encodeText l0 :: rest.map encodeText, size) :: tblOf names := by
+          simp only [tblOf, List.map_cons, keyLabels, hsp]
+        rw [htbl] at hrec
+        simp only [bind, Except.bind]
+        rw [← hrec]
+        cases writeRest size (utf8Len (stripTrailingDot name)) ((stripTrailingDot name, size) :: names) rest with
+        | error e => simp [onTbl, Except.map]
+        | ok v => simp [onTbl, Except.map, pure, Except.pure]
+
 end Zc.NameText
